@@ -6,6 +6,38 @@ From S2 Require Import Base.Num Base.Arr Model.Expr Model.Struct Model.Rates Mod
      Model.Derived.
 Local Open Scope nat_scope.
 
+(* What a caller may hand over as a flow rate.  Python values carry no static type: the flow-adding
+   methods check the value first (_validate_flowparam, model.py) and refuse everything that is neither a
+   number nor a graph object. *)
+Inductive pyval :=
+| PyNum (q : Q)                 (* int / float / NumPy real *)
+| PyGraph (e : expr)            (* Parameter, Function, Time, ... *)
+| PyStr (s : string)
+| PyNone
+| PyList (l : list Q).          (* list / tuple / array of numbers *)
+
+Definition validate_flowparam (v : pyval) : result expr :=
+  match v with
+  | PyNum q => Ok (EConst q)
+  | PyGraph e => Ok e
+  | _ => Err "TypeError: Flow parameter must be GraphObject or float"
+  end.
+
+Definition with_param (fs : flow_spec) (e : expr) : flow_spec :=
+  let 'FlowSpec k name _ src dst src_f dst_f expected split := fs in FlowSpec k name e src dst src_f dst_f expected split.
+
+Definition fs_kind (fs : flow_spec) : fkind := let 'FlowSpec k _ _ _ _ _ _ _ _ := fs in k.
+
+(* the flow-adding methods validate the rate before anything else; add_replacement_birth_flow takes no rate *)
+Definition add_flow_dyn (m : model) (v : pyval) (fs : flow_spec) : result model :=
+  match fs_kind fs with
+  | KRepl => add_flow m fs
+  | _ => do e <- validate_flowparam v; add_flow m (with_param fs e)
+  end.
+
+Definition add_universal_death_dyn (m : model) (name : string) (v : pyval) : result model :=
+  do e <- validate_flowparam v; add_universal_death m name e.
+
 Inductive op :=
 | OpPop (dist : list (string * expr))
 | OpArrayPop (arr : list expr)
@@ -17,7 +49,9 @@ Inductive op :=
 | OpWhitelist (wl : list string)
 | OpCV (name : string) (e : expr)
 | OpFinalize
-| OpSetDefaults (d : list (string * Q)).
+| OpSetDefaults (d : list (string * Q))
+| OpFlowDyn (v : pyval) (fs : flow_spec)            (* a flow whose rate is an arbitrary Python value *)
+| OpUDeathDyn (name : string) (v : pyval).
 
 Definition apply_op (m : model) (o : op) : result model :=
   match o with
@@ -32,6 +66,8 @@ Definition apply_op (m : model) (o : op) : result model :=
   | OpCV name e => add_computed_value m name e
   | OpFinalize => finalize m
   | OpSetDefaults d => Ok (set_default_parameters m d)
+  | OpFlowDyn v fs => add_flow_dyn m v fs
+  | OpUDeathDyn name v => add_universal_death_dyn m name v
   end.
 
 (* run the ops; on the first error report its position (0 = the constructor) *)
